@@ -305,7 +305,7 @@ Do(inp, orc, s, c) ==
          ELSE IF c = 0 THEN Err
          ELSE IF c = 92 THEN To(s, "RegexBodyAfterSlash")
          ELSE s
-    [] st = "RegexBodyAfterSlash" -> To(s, "RegexBody")
+    [] st = "RegexBodyAfterSlash" -> IF c = 0 THEN Err ELSE To(s, "RegexBody")     \* end of input right after "\" (fix for F-30)
     [] st = "CtxClosed" ->
          IF Ws(c) \/ c = 0 THEN s
          ELSE IF Nl(c) THEN To(s, "ExpectKeyword")
